@@ -332,45 +332,48 @@ func TestVerif_C05(t *testing.T) {
 		if !verifkit.Mine(ci) {
 			continue
 		}
-		r := verifkit.Rand("C05/mempool", ci)
-		mp, m := NewMemPool(), newMPModel()
-		var ops []mpOp
-		fp := ""
-		nontrivial := false
-		for s := 0; s < 40; s++ {
-			op := mpOp{Tx: r.Intn(len(ub.txs)), Trusted: r.Intn(2) == 0}
-			switch k := r.Intn(10); {
-			case k < 5:
-				op.Op = "addtx"
-			case k < 7:
-				op.Op = "remove"
-			case k < 8:
-				op.Op = "conflicting"
-			default:
-				op.Op = "addreq"
-			}
-			ops = append(ops, op)
-			nb := len(m.body)
-			v := mpApply(ub, mp, m, op)
-			rep.Event("random_op:"+op.Op, 1)
-			if v != nil {
-				rep.Finding(ci, "C05/mempool/"+v.rule+"/"+op.Op, v.detail+" | ops: "+ub.opsString(ops), map[string]interface{}{"engine": "random", "ops": ub.opsString(ops)})
-				break
-			}
-			multi := 0
-			for _, s := range m.index {
-				if len(s) > 1 {
-					multi++
+		ci := ci
+		verifkit.RunCase(rep, ci, func() {
+			r := verifkit.Rand("C05/mempool", ci)
+			mp, m := NewMemPool(), newMPModel()
+			var ops []mpOp
+			fp := ""
+			nontrivial := false
+			for s := 0; s < 40; s++ {
+				op := mpOp{Tx: r.Intn(len(ub.txs)), Trusted: r.Intn(2) == 0}
+				switch k := r.Intn(10); {
+				case k < 5:
+					op.Op = "addtx"
+				case k < 7:
+					op.Op = "remove"
+				case k < 8:
+					op.Op = "conflicting"
+				default:
+					op.Op = "addreq"
 				}
+				ops = append(ops, op)
+				nb := len(m.body)
+				v := mpApply(ub, mp, m, op)
+				rep.Event("random_op:"+op.Op, 1)
+				if v != nil {
+					rep.Finding(ci, "C05/mempool/"+v.rule+"/"+op.Op, v.detail+" | ops: "+ub.opsString(ops), map[string]interface{}{"engine": "random", "ops": ub.opsString(ops)})
+					break
+				}
+				multi := 0
+				for _, s := range m.index {
+					if len(s) > 1 {
+						multi++
+					}
+				}
+				if multi > 0 || len(m.body) < nb-0 && op.Op == "conflicting" {
+					nontrivial = true
+				}
+				fp += fmt.Sprintf("%s%d,", op.Op[:2], multi)
 			}
-			if multi > 0 || len(m.body) < nb-0 && op.Op == "conflicting" {
-				nontrivial = true
+			rep.Case(fp, nontrivial)
+			if rep.WantSample() {
+				rep.Sample(map[string]interface{}{"engine": "random", "case": ci, "ops": ub.opsString(ops)})
 			}
-			fp += fmt.Sprintf("%s%d,", op.Op[:2], multi)
-		}
-		rep.Case(fp, nontrivial)
-		if rep.WantSample() {
-			rep.Sample(map[string]interface{}{"engine": "random", "case": ci, "ops": ub.opsString(ops)})
-		}
+		})
 	}
 }
